@@ -23,6 +23,7 @@ DECIDES = (
     ' face permutations are history-independent: the same calls on a second face in the same abstract process give the result of a fresh one (class-level state rotated in place is reported); set_patch with lists of several sides in different orders sets exactly the listed sides.'
     ' No function keeps and modifies a label list or other object it was handed (C10.ARGUMENTS-UNTOUCHED); FaceList writes the quad of the projected side (C10.WRITTEN-SIDES = C06.SIDE-TABLES).'
     ' Every projected edge slot holds its own Project record (C10.NO-SHARED-PARTS); corner/side lookup (C10.CORNER-PATCHES).'
+    ' What belongs to a corner - position and projections - moves with it under shift (part of C10.FACE-PERMUTATIONS); every occupied corner pair is listed once also for shared payload objects (C10.BEAM-LIST).'
 )
 NOT_DECIDED = "which corner is geometrically 'closest' for degenerate distances; face normals (geometry)."
 ASSUMPTIONS = ["corner k of an operation is bottom_face.points[k] for k<4 and top_face.points[k-4] otherwise (checked against Operation.points)"]
